@@ -212,6 +212,8 @@ pub struct Run {
     pub records_after_op: Vec<usize>,
     /// Last effective purge: (closed chunks of the expected layout right after it, purge id).
     pub last_purge: Option<(usize, LogId)>,
+    /// Do not wait for / run the worker after caller ops (deep-queue scenario).
+    pub no_auto_settle: bool,
 }
 
 fn seg_pair(s: &Segment) -> (u64, u64) {
@@ -286,6 +288,7 @@ impl Run {
             max_id_seen: None,
             records_after_op: vec![0],
             last_purge: None,
+            no_auto_settle: false,
         };
         r.open_store(cfg).map_err(|e| Fail::new("open-fresh", format!("open of a fresh directory failed: {e}")))?;
         Ok(r)
@@ -314,6 +317,7 @@ impl Run {
             max_id_seen: None,
             records_after_op: vec![0],
             last_purge: None,
+            no_auto_settle: false,
         };
         r.max_id_seen = r.model.cur.log.values().map(|v| v.0).max().max(r.model.cur.st.last);
         if let Some(m) = r.max_id_seen {
@@ -439,6 +443,9 @@ impl Run {
     }
 
     fn after_caller_op(&mut self) {
+        if self.no_auto_settle {
+            return;
+        }
         if self.stepped && self.inst.is_some() {
             self.ops_since_idle += 1;
             // the request channel holds 1024 entries; never let the caller block on it
@@ -601,8 +608,24 @@ impl Run {
             OpSpec::Purge { pos, beyond, noop } => {
                 let st = self.model.st().clone();
                 let live: Vec<LogId> = self.model.cur.log.values().map(|v| v.0).collect();
+                // a purge into the hole below the first stored entry (a log whose first append was
+                // at a non-zero index): nothing is removed, only the purge pointer moves
+                let hole = match (self.model.first_live(), live.first()) {
+                    (Some(f), Some(fid)) => {
+                        let lo = next_index(st.purged.as_ref());
+                        if f > lo && st.purged.map(|p| p.0 <= fid.0).unwrap_or(true) {
+                            Some((fid.0, lo, f - lo))
+                        } else {
+                            None
+                        }
+                    }
+                    _ => None,
+                };
                 let upto = if *noop && st.purged.is_some() {
                     st.purged.unwrap()
+                } else if let (3, Some((t, lo, n))) = (*beyond, hole) {
+                    self.classes.hit("purge_into_hole");
+                    (t, lo + pick(*pos, n.min(1 << 20) as usize) as u64)
                 } else if *beyond > 0 || live.is_empty() {
                     let b = (*beyond).max(1) as u64;
                     match st.last {
